@@ -102,7 +102,7 @@ def prove_path(entry, path, opts):
         if N.is_ground and D.is_ground: continue
         sidechecks.append(('nonneg:%d' % k, pc + ["(< %s 0)" % C.rat_smt((N, D))]))
     # claims
-    claimchecks = []; trivial = {}
+    claimchecks = []; trivial = {}; cexchecks = []
     for (k, name, l, r) in path.claims:
         if k == 'EQ':
             vl, vr = C.val[l], C.val[r]
@@ -114,6 +114,7 @@ def prove_path(entry, path, opts):
             else:
                 res['candidates'].append(name)
                 res['claims'][name] = 'cf-mismatch'
+                cexchecks.append(('cex:' + name, pc + ["(not (= (* %s %s) (* %s %s)))" % (C.poly_smt(vl[0]), C.poly_smt(vr[1]), C.poly_smt(vr[0]), C.poly_smt(vl[1]))]))
         else:
             op = '<=' if k == 'LE' else '<'
             claimchecks.append(('claim:' + name, pc + ["(not (%s %s %s))" % (op, C.rat_smt(C.val[l]), C.rat_smt(C.val[r]))]))
@@ -129,6 +130,15 @@ def prove_path(entry, path, opts):
             res.setdefault('models', {})[name] = rs[lab][1][:4000]
         else:
             res['claims'][name] = 'undecided'; res['undecided'].append(name)
+    if cexchecks:
+        rc = smt.run_checks(pre, cexchecks[:8], per_check_ms=opts.get('cex_ms', 10000), jobs=opts.get('jobs', 4), models=True, tactic='qfnra-nlsat')
+        res['cex_models'] = {}
+        for lab, _ in cexchecks[:8]:
+            v = rc[lab]
+            res.setdefault('cex_status', {})[lab[4:]] = v[0]
+            if v[0] == 'sat':
+                m = smt.parse_model(v[1])
+                res['cex_models'][lab[4:]] = {int(k[1:]): val for k, val in m.items() if k[1:].isdigit() and nodes[int(k[1:])].op == 'var'}
     res['time'] = time.time() - t0
     res['_C'] = C
     return res
@@ -185,7 +195,34 @@ def sample_assignments(entry, path, n, seed):
         out.append(asg)
     return out
 
-def numeric_search(entry, path, names, nsamples=40, seed=0, tol=1e-20):
+def complete_model(entry, path, m):
+    """Turn a solver model (values of var nodes; algebraic ones may be missing) into assignments on the variety."""
+    nodes = entry.nodes
+    outs = [dict()]
+    inq = set()
+    for kind, ids in path.hyps:
+        lead = ids[3] if kind == 'unitq' else ids[0]
+        rest = [j for j in ids if j != lead]
+        inq.update(ids)
+        if not all(j in m for j in rest): return []
+        s = 1 - sum(Fraction(m[j]) ** 2 for j in rest)
+        if s < 0: return []
+        import mpmath as mp
+        root = mp.sqrt(mp.mpf(s.numerator) / mp.mpf(s.denominator))
+        new = []
+        for o in outs:
+            for sg in (1, -1):
+                o2 = dict(o)
+                for j in rest: o2[j] = Fraction(m[j])
+                o2[lead] = sg * root
+                new.append(o2)
+        outs = new
+    for o in outs:
+        for k, v in m.items():
+            if k not in inq: o[k] = Fraction(v)
+    return outs
+
+def numeric_search(entry, path, names, nsamples=40, seed=0, tol=1e-20, extra=()):
     """Evaluate the named claims at exact points of the hypothesis variety that satisfy the path condition.
     Returns list of (name, assignment, lval, rval)."""
     import mpmath as mp
@@ -195,9 +232,11 @@ def numeric_search(entry, path, names, nsamples=40, seed=0, tol=1e-20):
     npc = 0
     cl = {c[1]: c for c in path.claims}
     ids = [x for nm in names for x in cl[nm][2:]] + [x for d in path.decisions for x in (d[0], d[2])] + [x for d in path.assumes for x in (d[0], d[2])]
-    for asg in sample_assignments(entry, path, nsamples, seed):
+    def tomp(v):
+        return mp.mpf(v.numerator) / mp.mpf(v.denominator) if isinstance(v, Fraction) else mp.mpf(v)
+    for asg in list(extra) + sample_assignments(entry, path, nsamples, seed):
         try:
-            val = dagm.numeval(nodes, ids, {k: mp.mpf(v.numerator) / mp.mpf(v.denominator) for k, v in asg.items()}, mp)
+            val = dagm.numeval(nodes, ids, {k: tomp(v) for k, v in asg.items()}, mp)
         except Exception:
             continue
         ok = True
@@ -216,3 +255,40 @@ def numeric_search(entry, path, names, nsamples=40, seed=0, tol=1e-20):
             bad = (abs(lv - rv) > tol * sc) if k == 'EQ' else ((lv > rv) if k == 'LE' else (lv >= rv))
             if bad: found[nm] = (asg, float(lv), float(rv))
     return found, npc
+
+
+def solver_confirm(entry, path, name, asg, timeout_ms=20000):
+    """Direct encoding of the raw DAG with the inputs pinned to the candidate point: the solver must return sat
+    for the negated claim (transcendental atoms are enclosed by 1e-30-wide intervals computed at the pinned argument)."""
+    import mpmath as mp
+    mp.mp.dps = 60
+    nodes = entry.nodes
+    cl = {c[1]: c for c in path.claims}[name]
+    k, _, l, r = cl
+    need = sorted(dagm.cone(nodes, [l, r]))
+    def tomp(v): return mp.mpf(v.numerator) / mp.mpf(v.denominator) if isinstance(v, Fraction) else mp.mpf(v)
+    val = dagm.numeval(nodes, [l, r], {kk: tomp(v) for kk, v in asg.items()}, mp)
+    BIN = {'add': '+', 'sub': '-', 'mul': '*', 'div': '/'}
+    L = []
+    def box(i, v):
+        w = abs(v) * mp.mpf(10) ** -30 + mp.mpf(10) ** -40
+        lo = Fraction(int(mp.floor((v - w) * 10 ** 45)), 10 ** 45); hi = Fraction(int(mp.ceil((v + w) * 10 ** 45)), 10 ** 45)
+        return "(assert (and (<= %s n%d) (<= n%d %s)))" % (smt.rat(lo), i, i, smt.rat(hi))
+    for i in need:
+        n = nodes[i]
+        if n.op == 'var':
+            L.append("(declare-fun n%d () Real)" % i)
+            v = asg.get(i)
+            if isinstance(v, Fraction): L.append("(assert (= n%d %s))" % (i, smt.rat(v)))
+            else: L.append(box(i, val[i]))
+        elif n.op == 'const': L.append("(define-fun n%d () Real %s)" % (i, smt.rat(n.c)))
+        elif n.op in BIN: L.append("(define-fun n%d () Real (%s n%d n%d))" % (i, BIN[n.op], n.a, n.b))
+        elif n.op == 'neg': L.append("(define-fun n%d () Real (- n%d))" % (i, n.a))
+        else:
+            L.append("(declare-fun n%d () Real)" % i); L.append(box(i, val[i]))
+    for kind, ids in path.hyps:
+        if all(j in need for j in ids):
+            L.append("(assert (= (+ %s) 1))" % ' '.join("(* n%d n%d)" % (j, j) for j in ids))
+    neg = {'EQ': "(not (= n%d n%d))", 'LE': "(not (<= n%d n%d))", 'LT': "(not (< n%d n%d))"}[k] % (l, r)
+    rr = smt.run_checks(L, [('confirm', [neg])], per_check_ms=timeout_ms, jobs=1)
+    return rr['confirm'][0]
